@@ -139,9 +139,12 @@ def run_harness(job):
                                 c["trivial"] += 1
                         elif v == "cex":
                             c["cex"] += 1
-                            if len([x for x in out["candidates"] if x["claim"] == r["claim"]]) < 3:
+                            if len([x for x in out["candidates"] if x["claim"] == r["claim"]]) < 4:
                                 out["candidates"].append({"kind": "claim", "claim": r["claim"], "inputs": r["inputs"],
                                                           "unconfirmed": r["unconfirmed_path"]})
+                                if r.get("inputs_alt"):
+                                    out["candidates"].append({"kind": "claim", "claim": r["claim"], "inputs": r["inputs_alt"],
+                                                              "unconfirmed": r["unconfirmed_path"]})
                         else:
                             c["unknown"] += 1
                             if len(out["inconclusive"]) < 50:
